@@ -59,16 +59,24 @@ var endpoints = []string{"event", "batch", "otlp-traces-http", "otlp-logs-http",
 // sendKeyModes is the list of modes the configuration accepts (validation rejects anything else):
 // the `choices` of AccessKeys.SendKeyMode in the embedded config metadata.
 func sendKeyModes() []string {
-	md, err := config.LoadConfigMetadata()
-	if err != nil {
-		panic(err)
-	}
-	f := md.GetField("AccessKeys.SendKeyMode")
-	if f == nil || len(f.Choices) == 0 {
-		panic("no choices for AccessKeys.SendKeyMode in config metadata")
-	}
-	return f.Choices
+	modesOnce.Do(func() {
+		md, err := config.LoadConfigMetadata()
+		if err != nil {
+			panic(err)
+		}
+		f := md.GetField("AccessKeys.SendKeyMode")
+		if f == nil || len(f.Choices) == 0 {
+			panic("no choices for AccessKeys.SendKeyMode in config metadata")
+		}
+		modes = f.Choices
+	})
+	return modes
 }
+
+var (
+	modes     []string
+	modesOnce sync.Once
+)
 
 // ---------------------------------------------------------------------------------------------
 // the world: one real router
